@@ -176,6 +176,66 @@ def on_idents(p, r, exc, acc):
         acc.sample(dict(code=r["code"], demanded=sorted(r["undeclared"]), python_globals=sorted(glob)))
 
 
+# ------------------------------------------------------------------ (c) defaults of a def read names of the template's namespace
+PLACEMENTS = {
+    "nested-def": '<%%def name="outer()"><%%def name="f(%s)">${repr((%s))}</%%def>${f(%s)}</%%def>${outer()}',
+    "nested-def-in-block": '<%%block name="blk"><%%def name="f(%s)">${repr((%s))}</%%def>${f(%s)}</%%block>',
+    "def-in-call-body": '<%%def name="wrap()">${caller.body()}</%%def><%%call expr="wrap()"><%%def name="f(%s)">${repr((%s))}</%%def>${f(%s)}</%%call>',
+    "top-level-def": '<%%def name="f(%s)">${repr((%s))}</%%def>${f(%s)}',
+}
+DEFAULT_SITES = {
+    # signature, names to show, call arguments
+    "positional-default": ("a=zz", "a,", ""),
+    "second-positional-default": ("p, a=zz + 1", "p, a", "5"),
+    "keyword-only-default": ("*, k=zz", "k,", ""),
+    "keyword-only-after-args": ("*rest, k=zz * 2", "rest, k", "1, 2"),
+    "positional-and-keyword-only": ("a=zz, *, k=yy", "a, k", ""),
+    "default-in-lambda": ("a=lambda: zz", "a(),", ""),
+    "default-comprehension": ("a=[e + zz for e in yy2]", "a,", ""),
+}
+
+
+def tagsig_template(placement, site):
+    sig, show, call = DEFAULT_SITES[site]
+    return PLACEMENTS[placement] % (sig, show, call)
+
+
+def tagsig_expected(site):
+    sig, show, call = DEFAULT_SITES[site]
+    ns = dict(zz=3, yy=4, yy2=[1, 2])
+    exec("def f(%s): return repr((%s))" % (sig, show), ns)
+    return eval("f(%s)" % call, ns)
+
+
+def h_tagsig(p):
+    TPm = common.mako("template")
+    placement = list(PLACEMENTS)[p.choose(len(PLACEMENTS), "placement")]
+    site = list(DEFAULT_SITES)[p.choose(len(DEFAULT_SITES), "default")]
+    strict = bool(p.choose(2, "strict_undefined"))
+    src = tagsig_template(placement, site)
+    try:
+        got = TPm.Template(src, strict_undefined=strict).render(zz=3, yy=4, yy2=[1, 2]).strip()
+    except Exception as e:
+        got = "raised %s: %s" % (type(e).__name__, e)
+    return dict(placement=placement, site=site, strict=strict, src=src, got=got, want=tagsig_expected(site))
+
+
+def on_tagsig(p, r, exc, acc):
+    if exc is not None:
+        acc.candidate(kind="harness-exception", input=None, detail="%s: %s" % (type(exc).__name__, str(exc)[:200]))
+        return
+    acc.tags["asserted"] += 1
+    acc.vcs += 1
+    desc = dict(placement=r["placement"], default=r["site"], strict_undefined=r["strict"])
+    if r["got"] != r["want"]:
+        acc.candidate(kind="default-reads-namespace", input=desc, detail="%s rendered %r, Python gives %r" % (r["src"], r["got"], r["want"]))
+    else:
+        acc.good("default-reads-namespace", desc)
+    if len(acc.samples) < 6:
+        acc.sample(dict(desc, template=r["src"], rendered=r["got"]))
+
+
+
 def make_replay(c):
     i = c["input"] or {"signature": "a"}
     body = """
@@ -184,7 +244,18 @@ sys.path.insert(0, "/verif")
 from mako.template import Template
 CASE = __CASE__
 bad = None
-if "signature" in CASE:
+if "placement" in CASE:
+    from props import C19c
+    src = C19c.tagsig_template(CASE["placement"], CASE["default"])
+    want = C19c.tagsig_expected(CASE["default"])
+    print(src)
+    try:
+        got = Template(src, strict_undefined=CASE["strict_undefined"]).render(zz=3, yy=4, yy2=[1, 2]).strip()
+    except Exception as e:
+        got = "raised %s: %s" % (type(e).__name__, e)
+    print("rendered:", got, "  python:", want)
+    if got != want: bad = "a name read by an argument default is not supplied by the template's namespace"
+elif "signature" in CASE:
     # the def is called with some but not all optional arguments; its parameters must hold what Python binds for that signature
     sig = CASE["signature"]
     print("signature:", sig)
@@ -271,6 +342,8 @@ sys.exit(1 if bad else 0)
 
 def classify(c):
     i = c.get("input") or {}
+    if c["kind"] == "default-reads-namespace" and i.get("placement") in ("top-level-def", "def-in-call-body"):
+        return "C19-def-default-evaluated-without-context"
     if c["kind"] == "signature-reemission" and "*," in i.get("signature", "").replace(" ", "") + ",":
         import re
         if re.search(r"(^|,)\s*\*\s*(,|$)", i["signature"]):
@@ -288,12 +361,17 @@ def run(check, tier, cands):
         "signatures (exploration): 0-2 plain positionals, 0-2 positionals with defaults, none / *args / bare *, keyword-only with and "
         "without default, **kw - every combination through FunctionDecl.get_argument_expressions; the re-emitted signature must parse to "
         "the same ast.arguments; counterexamples are replayed by calling the def of a real template with some of the optional arguments",
+        "argument defaults of real defs (exploration): %d placements of a def (nested in a def / block / call body, top level) x %d "
+        "default forms (positional, keyword-only, after *args, lambda, comprehension) x strict_undefined, each default reading context "
+        "variables; reference = the same signature as a Python function" % (len(PLACEMENTS), len(DEFAULT_SITES)),
         "names demanded from the namespace (exploration): programs of %d statement(s) from %d binding / reading forms through "
         "mako.ast.PythonCode; reference = CPython's symtable for the same code as a function body: its implicit globals must all be in "
         "undeclared_identifiers, and undeclared_identifiers may add only names the block assigns at its own top level; counterexamples "
         "are replayed by rendering the block under strict_undefined with exactly the reference's names supplied" % ({"quick": 1, "thorough": 2}[tier], len(STATEMENTS)))
     jobs = [("C19-signatures", h_sig, on_sig, "signature re-emission over the parameter-kind grammar", dict(forms="3x3x3x2x2x2"), ("asserted",)),
             ("C19-names-1", h_idents(1), on_idents, "names demanded by one statement of the grammar", dict(statements=len(STATEMENTS)), ("asserted",))]
+    jobs.append(("C19-tag-defaults", h_tagsig, on_tagsig, "argument defaults of real defs reading names of the template's namespace",
+                 dict(placements=list(PLACEMENTS), defaults=list(DEFAULT_SITES)), ("asserted",)))
     if tier == "thorough":
         jobs.append(("C19-names-2", h_idents(2), on_idents, "names demanded by two statements of the grammar", dict(statements=len(STATEMENTS)), ("asserted",)))
     for j in jobs:
